@@ -311,12 +311,12 @@ func genCmd(r *rand.Rand, prop string, names, nonlib []string, cur map[string]st
 		var kinds []string
 		switch st.Cmd {
 		case "gen", "default":
-			kinds = []string{"hdr-missing", "hdr-dir", "hdr-eio", "w-err", "w-err", "w-short", "w-crash-before", "w-crash-trunc", "w-crash-mid", "w-crash-mid", "w-crash-after", "getwd", "nogo"}
+			kinds = []string{"hdr-missing", "hdr-dir", "hdr-eio", "hdr-notgo", "w-err", "w-err", "w-short", "w-crash-before", "w-crash-trunc", "w-crash-mid", "w-crash-mid", "w-crash-after", "getwd", "nogo"}
 			if st.Cmd == "default" {
-				kinds = kinds[3:]
+				kinds = kinds[4:]
 			}
 		case "diff":
-			kinds = []string{"hdr-missing", "hdr-dir", "hdr-eio", "r-out", "r-out", "getwd", "nogo"}
+			kinds = []string{"hdr-missing", "hdr-dir", "hdr-eio", "hdr-notgo", "r-out", "r-out", "getwd", "nogo"}
 		default:
 			kinds = []string{"getwd", "nogo"}
 		}
@@ -325,6 +325,8 @@ func genCmd(r *rand.Rand, prop string, names, nonlib []string, cur map[string]st
 			st.Header = "missing"
 		case "hdr-dir":
 			st.Header = "dir"
+		case "hdr-notgo":
+			st.Header = "notgo"
 		case "hdr-eio":
 			st.Header = "good"
 			st.Faults = append(st.Faults, world.Fault{Op: "read", Path: "hdr.txt", Nth: 1, Kind: "eio"})
